@@ -45,7 +45,10 @@ def rule_route(ctx):
                 rows.append((tuple(origin), role[1] if role else None, role[2] if role else None))
             else:
                 tail.append(method)
-        table[ch["name"]] = {"conds": ch["conds"], "rows": rows, "tail": tail}
+        order = [m_ for m_, _, _ in ch["steps"]]
+        adds = [i_ for i_, m_ in enumerate(order) if m_.startswith("add_")]
+        rest = [i_ for i_, m_ in enumerate(order) if not m_.startswith("add_") and m_ != "with_name"]
+        table[ch["name"]] = {"conds": ch["conds"], "rows": rows, "tail": tail, "tail_after_adds": bool(adds) and bool(rest) and max(adds) < min(rest), "order": order}
     ref = {
         "forward": {"gate": "self.direction in {Direction::Forward,Direction::Universal}",
                     "rows": [(("StrongEquivalenceTask::transition_axioms",), "Axiom", True), (("self.left",), "Axiom", True), (("self.right",), "Conjecture", True)]},
@@ -66,8 +69,8 @@ def rule_route(ctx):
         rcj = sorted(x for x in r["rows"] if x[1] == "Conjecture")
         ctx.add("FLOW-ROUTE", "%s:axioms" % name, ax == rax, site, "axioms of `%s` come from %s (reference %s)" % (name, ax, rax), construct=got["rows"])
         ctx.add("FLOW-ROUTE", "%s:conjectures" % name, cj == rcj and len(got["rows"]) == 3, site, "conjectures of `%s` come from %s (reference %s)" % (name, cj, rcj))
-        ctx.add("FLOW-PIPE", "%s:plumbing" % name, got["tail"] == ["rename_conflicting_symbols", "create_unique_formula_names"], site,
-                "after the theories: %s" % got["tail"])
+        ctx.add("FLOW-PIPE", "%s:plumbing" % name, got["tail"] == ["rename_conflicting_symbols", "create_unique_formula_names"] and got["tail_after_adds"], site,
+                "conflicting symbols are renamed and formula names made unique once, after every theory (axioms and conjectures) has been added: %s" % got["order"])
     if "forward" in table and "backward" in table:
         f, bk = table["forward"], table["backward"]
         mf = [(tuple(MIRROR.get(o, o) for o in orig), role, pt) for orig, role, pt in f["rows"]]
